@@ -515,11 +515,13 @@ def verify_strat_allocate(ex, contract, timeout_ms=30000):
 
 # ------------------------------------------------------------------ StrategyBase.close (body against its clauses)
 def verify_close(ex, contract, timeout_ms=30000):
-    """close(child, update) on a fresh tree: KeyError iff the name is not a child; otherwise, for a security child,
-      market-value strategy: nothing is called when the child's value is zero or NaN; else exactly one c.allocate(-value, update) - whose
-        close-out clause leaves the position at exactly 0 (priced child) - and nothing else;
-      fixed-income strategy: nothing when the position is zero; else exactly one c.transact(-position, update): position 0 afterwards;
-    a strategy child that has children is flattened first.  Nothing outside the strategy, the child's subtree and root.stale is written."""
+    """close(child, update), on a fresh or a stale tree (a stale tree is refreshed by the first value read, so every quantity below is the one
+    after that refresh): KeyError iff the name is not a child; otherwise, for a security child,
+      market-value strategy: nothing is traded when the child's value is zero or NaN; else exactly one c.allocate(-value, update) - whose
+        close-out clause leaves the position at zero (priced child) - and nothing else;
+      fixed-income strategy: nothing when the position is zero; else exactly one c.transact(-position, update): position zero afterwards;
+    a strategy child that has children is flattened first.  Nothing outside the strategy, the child's subtree and root.stale is written
+    (the whole tree when a refresh happened)."""
     from pyvc.verify import FuncReport, discharge, entry_state
 
     fr = FuncReport(contract.qualname)
@@ -534,14 +536,13 @@ def verify_close(ex, contract, timeout_ms=30000):
         for f in self_facts(E, self):
             st0.assume(_zb(f))
         rt = E.get(self, "root")
-        st0.assume(_zb(Not(E.get(rt, "stale"))))
         st0.assume(_zb(named_child_facts(E, self, child)))
         c = named_child(E, self, child)
         has = E.dict_has(self, "children", child)
         issec = E.get(c, "_issec")
-        # I instance for a security child (the tree is fresh): on the strategy's date, position recorded
-        st0.assume(_zb(Implies(And(has, issec), And(E.get(c, "now").eq(E.get(self, "now")), eq(E.get(c, "_last_pos"), E.get(c, "_position")), Not(E.get(c, "_needupdate")) == is_zero(E.get(c, "_position")) if False else True,
-                                                    E.list_len(c, "_childrenv").eq(0)))))
+        st0.assume(_zb(Implies(And(has, issec), E.list_len(c, "_childrenv").eq(0))))
+        # on a fresh tree a security child is on the strategy's date with its position recorded (I instance); a stale tree gets there by its refresh
+        st0.assume(_zb(Implies(And(has, issec, Not(E.get(rt, "stale"))), And(E.get(c, "now").eq(E.get(self, "now")), eq(E.get(c, "_last_pos"), E.get(c, "_position"))))))
         E = st0.heap.copy()
         t0 = time.time()
         exits = ex.run_function(fi, st0.fork(), self, args)
@@ -549,27 +550,42 @@ def verify_close(ex, contract, timeout_ms=30000):
         fr.paths = len(exits)
         obligs = []
         fi_strat = E.get(self, "_fixed_income")
-        val, pos, prc = E.get(c, "_value"), E.get(c, "_position"), E.get(c, "_price")
         for xi, (st, oc) in enumerate(exits):
             kind = oc.kind if oc.kind != "raise" else "raise:" + oc.exc
             fr.exits[kind] = fr.exits.get(kind, 0) + 1
             obligs.extend(st.obligs)
             F = st.heap
 
+            extra_pc = []
+
             def ob(cid, goal, props=PC):
-                obligs.append(Oblig("%s/%s" % (name, cid), st.pc, goal, "post", props))
+                obligs.append(Oblig("%s/%s" % (name, cid), list(st.pc) + extra_pc, goal, "post", props))
 
             if oc.kind == "raise":
                 if oc.exc == "KeyError":
                     ob("keyerror-only-for-an-unknown-child", Not(has))
                 continue
             ob("completes-only-for-a-child", has)
-            calls = [x for x in st.log if len(x) in (3, 4)]
+            allcalls = [x for x in st.log if len(x) in (3, 4)]
+            root_refresh = [x for x in allcalls if x[0].endswith("StrategyBase.update")]
+            if root_refresh:
+                # update re-establishes the invariants (its own postcondition I): instance for the named child in the refreshed state
+                k0 = allcalls.index(root_refresh[-1])
+                after = allcalls[k0 + 1][3] if (k0 + 1 < len(allcalls) and len(allcalls[k0 + 1]) == 4) else F
+                ca = named_child(after, self, child)
+                extra_pc += [_zb(named_child_facts(after, self, child)),
+                             _zb(Implies(And(has, after.get(ca, "_issec")), And(after.get(ca, "now").eq(after.get(self, "now")), eq(after.get(ca, "_last_pos"), after.get(ca, "_position")), Not(after.get(after.get(self, "root"), "stale")))))]
+            refreshed = bool(root_refresh)
+            calls = [x for x in allcalls if not x[0].endswith(".update")]
             names = [x[0].rsplit(".", 1)[1] for x in calls]
             sec = And(has, issec)
+            trades = [x for x in calls if x[0].endswith(".allocate") or (x[0].endswith(".transact") and len(x) == 4)]
+            # the state the trade decision is taken in: right before the trade (after any refresh), or the final state when nothing was traded
+            H = trades[0][3] if trades else F
+            val, pos, prc = H.get(c, "_value"), H.get(c, "_position"), H.get(c, "_price")
             dbg = ("[" + ",".join(names) + "]") if __import__("os").environ.get("DBG_CLOSE") else ""
-            # market value, security child
-            ob("mv-security:nothing-called-when-value-is-zero-or-nan", Implies(And(sec, Not(fi_strat), Or(val.eq(0), isnan(val))), len(calls) == 0))
+            ob("mv-security:a-stale-tree-is-refreshed-before-the-child's-value-is-used", Implies(And(sec, Not(fi_strat), E.get(rt, "stale"), bool(trades)), refreshed))
+            ob("mv-security:nothing-traded-when-value-is-zero-or-nan", Implies(And(sec, Not(fi_strat), Or(val.eq(0), isnan(val))), len(calls) == 0))
             ob("mv-security:otherwise-exactly-one-allocate(-value, update)" + dbg, Implies(And(sec, Not(fi_strat), Not(val.eq(0)), Not(isnan(val))), names == ["allocate", "transact"]))   # allocate's contract logs the transact it delegates to
             if names == ["allocate", "transact"] or names == ["transact"]:
                 first = calls[0]
@@ -577,15 +593,15 @@ def verify_close(ex, contract, timeout_ms=30000):
                 a0, u0 = first[2][0], first[2][1]
                 u0 = u0 if not isinstance(u0, bool) else z3.BoolVal(u0)
                 want = -val if names[0] == "allocate" else -pos
-                ob("the-trade-is-minus-the-child's-value-(position)-with-the-caller's-update-flag", Implies(sec, And(first[1].term == c.term, value_same(a0, want), u0 == upd)))
-            ob("fi-security:nothing-called-when-flat", Implies(And(sec, fi_strat, pos.eq(0)), len(calls) == 0))
+                ob("the-trade-is-minus-the-child's-current-value-(position)-with-the-caller's-update-flag", Implies(sec, And(first[1].term == c.term, value_same(a0, want), u0 == upd)))
+            ob("fi-security:nothing-traded-when-flat", Implies(And(sec, fi_strat, pos.eq(0)), len(calls) == 0))
             # zero up to the code's own is_zero (transact ignores quantities below TOL)
             ob("security:position-is-zero-afterwards" + dbg, Implies(And(sec, Or(fi_strat, And(Not(is_zero(val)), Not(isnan(val)), Not(is_zero(prc)), Not(isnan(prc))))), is_zero(F.get(c, "_position"))))
             ob("security:flat-child-stays-flat", Implies(And(sec, is_zero(pos)), is_zero(F.get(c, "_position"))))
             x = z3.Const(dsl.fresh_name("xfr"), dsl.Ref)
             outside = And(x != self.term, slot_f(self.term, x) == -1, x != rt.term)
-            if "update" in names:
-                # a strategy child was flattened first: reading its value refreshes the whole tree through root.update
+            if refreshed:
+                # reading a value on a stale tree refreshes the whole tree through root.update
                 outside = And(outside, treeof_f(x) != rt.term)
             for key in sorted(F.maps.keys()):
                 a, b = F.maps[key], E.ensure(key)
@@ -593,7 +609,7 @@ def verify_close(ex, contract, timeout_ms=30000):
 
                 if map_same(a, b):
                     continue
-                ob("frame:%s%s" % (key, ("[" + ",".join(names) + "]") if __import__("os").environ.get("DBG_CLOSE") else ""), Implies(outside, a.select(x) == b.select(x)), ("C08", "C11"))
+                ob("frame:%s" % key, Implies(outside, a.select(x) == b.select(x)), ("C08", "C11"))
         s = z3.Solver()
         for p in st0.pc:
             s.add(p)
